@@ -113,7 +113,26 @@ def evaluate(
     # into "statements to execute" and "a value to evaluate"; other statements
     # that carry a `value` attribute (e.g. `x += 1`, `x: int = 1`) must be
     # executed as they are.
-    if isinstance(code_block.body[-1], (ast.Expr, ast.Assign)):   # pytype: disable=attribute-error
+    last_stmt = code_block.body[-1]   # pytype: disable=attribute-error
+    if (isinstance(last_stmt, ast.Assign)
+        and not all(isinstance(t, ast.Name) for t in last_stmt.targets)):
+      # `a, b = v`, `d[k] = v`, `o.x = v`: the targets are not plain names, so
+      # the statement is executed as it is, on a value that is computed once
+      # and reported as the result.
+      result_assign = ast.Assign(
+          targets=[ast.Name(id=RESULT_KEY, ctx=ast.Store())],
+          value=last_stmt.value)
+      target_assign = ast.Assign(
+          targets=last_stmt.targets,
+          value=ast.Name(id=RESULT_KEY, ctx=ast.Load()))
+      for node in (result_assign, target_assign):
+        ast.fix_missing_locations(ast.copy_location(node, last_stmt))
+      code_block.body[-1:] = [result_assign, target_assign]  # pytype: disable=attribute-error
+      try:
+        exec(compile(code_block, '', mode='exec'), global_vars)  # pylint: disable=exec-used
+      except Exception as e:
+        raise errors.CodeError(code, e) from e
+    elif isinstance(last_stmt, (ast.Expr, ast.Assign)):
       last_expr = code_block.body.pop()  # pytype: disable=attribute-error
       result_vars = [RESULT_KEY]
 
